@@ -75,7 +75,7 @@ RandArgs(u) ==
       rest == IF cluster THEN chosen \ shortable ELSE chosen
       flagToks == [i \in 1..Cardinality(rest) |-> single(SetToSeq(rest)[i])] \o (IF cluster THEN <<clusterTok>> ELSE <<>>)
       dup == IF flagToks # <<>> /\ Pick(1..6) = 1 THEN <<flagToks[1]>> ELSE <<>>            \* a repeated flag is harmless
-      ind == IF Pick(1..10) <= 4 THEN IndentToks(u) ELSE <<>>
+      ind == IF Pick(1..10) <= 4 THEN IndentToks(u) \o (IF Pick(1..4) = 1 THEN IndentToks(u) ELSE <<>>) ELSE <<>>   \* repeated: the last one wins
       bad == IF Pick(1..25) = 1 THEN BadToks(u) ELSE <<>>
       ddlast == Pick(1..8) = 1                                                              \* flags, `--`, query
       all == flagToks \o dup \o ind \o bad
